@@ -10,10 +10,24 @@
 #include "../utility/FixedArrayView.h"
 #include "../utility/OwnedArray.h"
 
+#include <type_traits>
 #include <vector>
 
 namespace rkcommon {
   namespace networking {
+
+    namespace detail {
+      // is_abstract_array<T>: T is (derived from) some utility::AbstractArray<U>
+      template <typename U>
+      std::true_type abstract_array_test(const utility::AbstractArray<U> *);
+      std::false_type abstract_array_test(...);
+
+      template <typename T>
+      struct is_abstract_array
+          : decltype(abstract_array_test(static_cast<const T *>(nullptr)))
+      {
+      };
+    }  // namespace detail
 
     /*! abstraction of an object that we can serailize/write (raw) data into */
     struct RKCOMMON_INTERFACE WriteStream
@@ -102,9 +116,14 @@ namespace rkcommon {
       std::shared_ptr<utility::FixedArray<uint8_t>> buffer;
     };
 
-    /*! generic stream operators into/out of streams, for raw data blocks */
+    /*! generic stream operators into/out of streams, for raw data blocks.
+     * Not for the array wrappers (OwnedArray, FixedArray, ArrayView, ...): with
+     * their own static type they would match here better than the AbstractArray
+     * overload below and have their object representation written */
     template <typename T>
-    inline WriteStream &operator<<(WriteStream &buf, const T &rh)
+    inline typename std::enable_if<!detail::is_abstract_array<T>::value,
+                                   WriteStream &>::type
+    operator<<(WriteStream &buf, const T &rh)
     {
       buf.write((const byte_t *)&rh, sizeof(T));
       return buf;
